@@ -413,7 +413,11 @@ header into the request's own map (`req.Header[key] = values`): requests built f
 slices and never write them (`Header.Add` appends to a slice without spare capacity, i.e. into a new array; `mode=ammo`
 snapshots the whole backing array around every step of another instance) -/
 def reviewedFlows : List FlowRow := [
-  ("components/providers/http/util.EnrichRequestWithHeaders", "slice", "store", "param0.Header[]", "param1[]")
+  ("components/providers/http/util.EnrichRequestWithHeaders", "slice", "store", "param0.Header[]", "param1[]"),
+  -- round 4 (grpc/json provider): `Acquire` hands on the pooled ammo its channel delivers — an object that changes hands
+  -- (the provider goroutine took it from the pool and gave it to the channel; whoever receives it owns it until `Release`:
+  -- hand-over words + `C11_owned_exclusive`; `mode=alias` / `mode=ammo` check that outstanding ammo are distinct objects)
+  ("components/providers/grpc.Provider.Acquire", "ptr", "return", "0", "recv.Sink[]")
 ]
 
 /-- no map of the caller (the decoded ammo's header, the provider's configuration) is kept by what `Acquire` builds; a
@@ -434,10 +438,18 @@ def judgeFlows (flows : List FlowRow) : String :=
 /-- a regenerated write: (function, origin of the object written, destination, how) -/
 abbrev WriteRow := String × String × String × String
 
+/-- round 4: writes through a receiver that were reviewed: the grpc/json provider stamps the id on the pooled ammo its
+channel has just delivered to this very `Acquire` — the ammo changes hands through the channel, the receiving instance is
+its only owner until `Release` (the same object as in `reviewedFlows`) -/
+def reviewedWrites : List WriteRow := [
+  ("components/providers/grpc.Ammo.SetID", "recv", "recv.id", "assign")
+]
+
 /-- `Acquire` and everything it calls run in the instances' goroutines on objects all instances use (the provider, its
-middlewares, a decoded ammo that is delivered again): they may write only what every call chain hands them as something
-the caller made itself — the request being built — or an atomic value -/
-def writeOk (w : WriteRow) : Bool := w.2.1 == "param" || w.2.2.2 == "atomic"
+middlewares, a decoded ammo or a scenario definition that is delivered again): they may write only what every call chain
+hands them as something the caller made itself — the request being built, the clone of a scenario just made (`own-recv`:
+a method whose receiver every call site binds to the result of a call) — or an atomic value -/
+def writeOk (w : WriteRow) : Bool := w.2.1 == "param" || w.2.1 == "own-recv" || w.2.2.2 == "atomic" || reviewedWrites.contains w
 
 def judgeWrites (ws : List WriteRow) : String :=
   match ws.find? (fun w => !writeOk w) with
@@ -530,6 +542,38 @@ def judgeAmmo (o : AmmoObs) : String :=
 
 /-- labels two outstanding ammo may share in this configuration; anything else is outside the model -/
 def ammoSharedAllowed (c : PoolCfg) : List String := (ammoInventory.filter (·.on c)).map (·.label)
+
+/-! ### the shared counters at extreme values (mode=wrap, round 4) -/
+
+/-- what the real code made of each use: a row number, `err`, or `panic:<text>`. The property: no use of a shared
+counter faults, every row handed out is a row of the slice -/
+def judgeWrap (n : Int) (got : List String) : String :=
+  match got.find? (fun g => g.startsWith "panic:") with
+  | some g => s!"fail:fatal:a use of the shared counter panicked ({g.drop 6}) — an index outside the {n} rows"
+  | none =>
+    match got.find? (fun g => g != "err" && (match g.toInt? with
+                                              | some i => !(decide (0 ≤ i) && decide (i < n))
+                                              | none => true)) with
+    | some g => s!"fail:bad-index:{g} is not a row of {n}"
+    | none => "ok"
+
+def showIdx : Option Int → String
+  | none => "err"
+  | some i => toString i
+
+/-- the model's prediction of `mode=wrap`, computed with the bodies regenerated from the source -/
+def wrapPrediction (obj idx : String) (n : Int) (ctr calls : Nat) : List (Option Int) :=
+  match obj with
+  | "nextiter" =>
+    Pandora.Gen.Locks.calcIndexBody "next" 0 true n (Pandora.Gen.Locks.iterNextBody false 0) 0 ::
+      (List.range calls).map fun j =>
+        Pandora.Gen.Locks.calcIndexBody "next" 0 true n (Pandora.Gen.Locks.iterNextBody true ((ctr + j + 1 : Nat) : Int)) 0
+  | "clientpool" =>
+    Pandora.Gen.Locks.poolNextBody n 1 :: (List.range calls).map fun j => Pandora.Gen.Locks.poolNextBody n ((ctr + j + 1 : Nat) : Int)
+  | _ =>
+    match idx.toInt? with
+    | some a => [Pandora.Gen.Locks.calcIndexBody idx a false n 0 0]
+    | none => [Pandora.Gen.Locks.calcIndexBody idx 0 true n 0 0]
 
 /-! ### results handed out by the shared components of a scenario definition (mode=retain) -/
 
